@@ -7,14 +7,21 @@ RULE = ("seeded random trees; every case picks a node (root / inner / leaf, any 
         "(oracle) and with the Lean model; non-trivial = target is not the root or tree option is not True; distinct by recipe hash")
 
 
-def mk_case(tree, target, opt, unrooted=None):
+def mk_case(tree, target, opt, unrooted=None, prior=False):
     if unrooted is not None:
         return {"trees": {}, "unrooted": {"U": unrooted}, "steps": [
             {"do": "save", "path": "A", "src": "U", "mode": "w", "tree": opt, "emdpath": None},
             {"do": "walk", "path": "A"}, {"do": "info", "path": "A"}]}
-    return {"trees": {"T": tree}, "steps": [
+    steps = [
         {"do": "save", "path": "A", "src": "T", "target": list(target), "mode": "w", "tree": opt, "emdpath": None},
-        {"do": "walk", "path": "A"}, {"do": "info", "path": "A"}]}
+        {"do": "walk", "path": "A"}, {"do": "info", "path": "A"}]
+    if prior:
+        # the SAME objects were saved before (whole tree, other file): a save must not depend on what was saved earlier
+        steps = steps + [{"do": "save", "path": "B", "src": "T", "target": list(target), "mode": "w", "tree": opt, "emdpath": None},
+                         {"do": "walk", "path": "B"}]
+        steps = [{"do": "save", "path": "P", "src": "T", "target": [], "mode": "w", "tree": True, "emdpath": None},
+                 {"do": "walk", "path": "P"}] + steps
+    return {"trees": {"T": tree}, "steps": steps, "prior": bool(prior)}
 
 
 def cases(tier, seed):
@@ -45,7 +52,7 @@ def cases(tier, seed):
         else:
             p = r.choice(paths) if r.random() < 0.85 else ()
             # 'noroot' is the deprecated spelling of None; anything else is refused before the file is touched
-            yield mk_case(t, p, r.choice([True, False, None, True, False, None, "noroot", "all"]))
+            yield mk_case(t, p, r.choice([True, False, None, True, False, None, "noroot", "all"]), prior=r.random() < 0.3)
 
 
 def run_both(drv, case):
@@ -76,8 +83,18 @@ def expected_root(src, opt):
 
 
 def oracle(case, obs):
-    src = hist.LAST["msteps"][0]["src"]
-    opt = case["steps"][0]["tree"]
+    off = 2 if case.get("prior") else 0
+    if off:
+        if obs[0] != {"ok": True}:
+            return None          # the prior whole-tree save failed (collision …): nothing to compare
+        obs = obs[2:]
+        # the second save of the same selection (file B) must equal the first (file A)
+        if len(obs) >= 5 and obs[0] == {"ok": True} and obs[3] == {"ok": True}:
+            a, b = c11_blank(obs[1]), c11_blank(obs[4])
+            if a != b:
+                return {"same_selection_saved_twice_differs": True}
+    src = hist.LAST["msteps"][off]["src"]
+    opt = case["steps"][off]["tree"]
     if opt == "all":
         return None if "err" in obs[0] else {"invalid_tree_value_not_refused": obs[0]}
     if opt == "noroot":
@@ -99,17 +116,27 @@ def oracle(case, obs):
     return None
 
 
+def c11_blank(walk):
+    from harness.props import c11
+    return c11.blank_uuid(alpha_canon(walk))
+
+
+def alpha_canon(w):
+    from harness import alpha
+    return alpha.canon_obs(w)
+
+
 def known_match(case, fail, finding):
     return False
 
 
 def nontrivial(case):
-    s = case["steps"][0]
+    s = case["steps"][2 if case.get("prior") else 0]
     return bool(s.get("target")) or s["tree"] is not True or "unrooted" in case
 
 
 def classify(case, obs):
-    s = case["steps"][0]
+    s = case["steps"][2 if case.get("prior") else 0]
     return [f"opt_{s['tree']}", "unrooted" if case.get("unrooted") else f"depth_{len(s.get('target', []))}"]
 
 
